@@ -874,3 +874,29 @@ RP("c16-processed-variable-namedtuple", "C16", "evolutions6/E25_refactor_6.diff"
 RP("c04-unit-helpers", "C04", "evolutions6/E24_refactor_1.diff")
 RP("c09-named-wait-constant", "C09", "evolutions6/E24_refactor_4.diff")
 RP("c08-named-wire-widths", "C08", "evolutions6/E24_refactor_5.diff")
+
+# round 11 / campaign 10
+MP("c02-falsy-setting-taken-as-unset", "C02", "C02.PATH", "C02-j1/patch.diff")
+MP("c02-merge-key-is-the-name", "C02", "C02.PLACE", "C02-j3/patch.diff")
+MP("c03-empty-configuration-ignored", "C03", "C03.PUBLISH", "C03-j1/patch.diff")
+MP("c06-dict-read-by-stale-key", "C06", "C06.TOTAL", "C06-j2/patch.diff")
+MP("c08-method-line-minus-one-on-the-wire", "C08", "C08.SOURCE", "C08-j1/patch.diff")
+MP("c08-watch-source-and-expression-swapped", "C08", "C08.SOURCE", "C08-j3/patch.diff")
+MP("c09-flush-skipped-when-idle", "C09", "C09.D", "C09-j1/patch.diff")
+MP("c09-finished-task-removes-latest-id", "C09", "C09.C", "C09-j3/patch.diff")
+MP("c11-actions-skipped-after-a-refusal", "C11", "C11.EACHACT", "C11-j2/patch.diff")
+MP("c14-timer-not-joined", "C14", "C14.E", "C14-j2/patch.diff")
+MP("c14-finished-task-removes-latest-id", "C14", "C14.DRAIN", "C14-j3/patch.diff")
+MP("c16-log-skipped-without-logger", "C16", "C16.SNAP", "C16-j1/patch.diff")
+MP("c16-fast-path-without-formatter", "C16", "C16.PIPE", "C16-j2/patch.diff")
+MP("c16-watch-result-arguments-swapped", "C16", "C16.SNAP", "C16-j3/patch.diff")
+MP("c18-initial-map-pre-sliced", "C18", "C18.CAP", "C18-j2/patch.diff")
+MP("c19-classification-stops-at-first-non-app-frame", "C19", "C19.FRAME", "C19-j2/patch.diff")
+MP("c20-lookup-memo-never-reset", "C20", "C20.LOAD", "C20-j2/patch.diff")
+RP("c05-bound-append-and-deque", "C05", "evolutions7/E27_refactor_4.diff")
+RP("c15-constructor-parameter-renamed", "C15", "evolutions7/E28_refactor_2.diff")
+RP("c02-frame-index-named-first", "C02", "evolutions7/E28_refactor_3.diff")
+RP("c15-named-queue-provider", "C15", "evolutions7/E28_refactor_5.diff")
+RP("c11-get-without-none-default", "C11", "evolutions7/E29_refactor_1.diff")
+RP("c08-element-none-test-as-statement", "C08", "evolutions7/E29_refactor_6.diff")
+RP("c06-membership-test-as-guard", "C06", "refactorings/R2_refactor_4.diff")
